@@ -45,3 +45,27 @@ Print Assumptions C20_no_self_deadlock.
 Theorem C20_lock_discipline : Gen.lock_discipline_mgr = true /\ Gen.lock_discipline_peering = true.
 Proof. repeat split; reflexivity. Qed.
 Print Assumptions C20_lock_discipline.
+
+(* ---------- every started worker is seen by the stop (Workers.v; defect D24) ---------- *)
+From Verif Require Import Workers.
+(* Go counts the worker and then spawns its goroutine; the goroutine is scheduled whenever the
+   runtime likes.  Under every interleaving of starts, schedulings and finishes the counter equals
+   the number of workers started and not finished, so WaitForWorkers' "done" (counter zero) means
+   that none is left — not even one whose goroutine has not run yet. *)
+Theorem C20_stop_sees_every_started_worker : forall evs,
+  let s := fold_left wstep evs w0 in
+  w_count s = unfinished s /\ (wait_done s = true -> unfinished s = O).
+Proof. exact wait_done_means_none_left. Qed.
+Print Assumptions C20_stop_sees_every_started_worker.
+
+(* the source under test has that order: every go statement of mgr/worker.go is preceded by
+   workerStart in its function, and the function it runs does not count again (go/ast, every run) *)
+Theorem C20_source_counts_before_spawning : Gen.worker_counted_before_spawn = true.
+Proof. reflexivity. Qed.
+Print Assumptions C20_source_counts_before_spawning.
+
+(* the order the pinned tree had: after the single event Go the stop finds the counter at zero
+   while one worker is about to run *)
+Theorem C20_pinned_accounting_refuted :
+  exists evs, let s := fold_left wstep_pinned evs w0 in wait_done s = true /\ unfinished s = 1%nat.
+Proof. exact pinned_wait_done_refuted. Qed.
